@@ -106,3 +106,40 @@ def io_outcomes(f, prim):
         retv = fin.eval_expr(f, f.nodes[end]["c"][0], val) if isinstance(end, int) and f.nodes[end]["c"] else None
         out[cls] = (bool(hit), end, buffered, retv)
     return out
+
+
+def parser_entry_resets(prog, chk, rid, priv, fileend):
+    """MPT: the parser object is reused for several documents (Parser keeps one Private); every cursor/line field the tokenizer
+    modifies must be set again in Private::parse before the first tokenizer call, on every path"""
+    from .. import q as _q
+    fs = [f for f in prog.functions.values() if f.gname.startswith(priv + "::") and f.file.endswith(fileend)]
+    entry = [f for f in fs if f.short == "parse" and len(f.params) == 2]
+    if not entry:
+        from ..facts import AnalysisBroken
+        raise AnalysisBroken("%s::parse(text, result) not found" % priv)
+    entry = entry[0]
+    modified = set()
+    for f in fs:
+        if f is entry or f.kind == "ctor":
+            continue
+        for s in _q.stores(f):
+            t = _q.no_casts(f.r(s.lhs))
+            if re.fullmatch(r"this->pos\.\w+", t):
+                modified.add(t)
+    calls = [c for c in _q.calls(entry) if entry.nodes[c]["k"] == "CXXMemberCallExpr" and entry.nodes[c].get("callee", "").startswith(priv + "::")
+             and (_q.call_object(entry, c) is None or entry.nodes[_q.call_object(entry, c)]["k"] == "CXXThisExpr")]
+    if not modified or not calls:
+        from ..facts import AnalysisBroken
+        raise AnalysisBroken("%s: tokenizer state / tokenizer calls not found" % priv)
+    where = "%s:%s" % (entry.file, entry.line)
+    for fld in sorted(modified):
+        sts = [s.node for s in _q.stores(entry) if fld in [_q.no_casts(entry.r(x)) for x in [s.lhs] + ([] if s.rhs is None else [])] or
+               # chained `pos.pos = pos.lineStart = data`
+               any(entry.nodes[y]["k"] == "BinaryOperator" and entry.nodes[y].get("op") == "=" and _q.no_casts(entry.r(entry.nodes[y]["c"][0])) == fld for y in entry.desc(s.node))]
+        ok = bool(sts) and all(_q.precedes_always(entry, sts, c) for c in calls)
+        if ok:
+            chk.ok(rid, entry, "%s reset before the first tokenizer call" % fld.replace("this->", ""), where, "store dominates every tokenizer call", evals=len(calls))
+        else:
+            chk.bad(rid, entry, "parser-state-not-reset:" + fld.replace("this->", ""), where,
+                    "`%s` is advanced by the tokenizer but not set again at the start of parse(): a Parser object that is used for a second document "
+                    "continues from the previous document's value (error positions beyond the text)" % fld.replace("this->", ""))
